@@ -133,7 +133,9 @@ func (c20) Generate(env *kernel.Env, r *kernel.Rand, index int) any {
 			if focus >= 0 && r.Chance(3, 4) {
 				f = focus
 			}
-			reqs = append(reqs, request{Format: f, File: fmt.Sprintf("out%d%s", k, ext(f))})
+			// file names are arbitrary: spaces, dashes and non-ASCII letters are legal
+			stem := kernel.Pick(r, []string{"out", "out", "out", "my out", "gen api", "été", "a-b", "x y z"})
+			reqs = append(reqs, request{Format: f, File: fmt.Sprintf("%s%d%s", stem, k, ext(f))})
 			k++
 		}
 		p.Callers = append(p.Callers, reqs)
@@ -586,4 +588,10 @@ func (c20) Shrink(raw json.RawMessage) []json.RawMessage {
 
 var _ = errors.New
 
-func main() { kernel.Main(c20{}) }
+func main() {
+	if os.Getenv("C20_RACESAVE") != "" {
+		raceSave()
+		return
+	}
+	kernel.Main(c20{})
+}
